@@ -33,7 +33,7 @@ You are working in a scratch git worktree of the repository axelarnetwork/axelar
 {body}
 ## What to produce
 
-Choose ONE of these properties — the one for which you can find the most SUBTLE violation that has not been tried yet (all else equal prefer the property with the fewest earlier attempts) — and produce ONE realistic source change (a small diff to non-test source files under contracts/ or packages/, the kind of regression a refactoring, clean-up, "hardening" or "optimisation" could plausibly introduce) that BREAKS that property while (a) the workspace still compiles and (b) the ENTIRE existing test suite (`cargo test --workspace --offline`) still passes unchanged. The change must need something SPECIFIC to manifest — a particular multi-step history, an interleaving of different principals' transactions, ledger time or ledger sequence passing, a boundary or otherwise unusual input or deployment configuration, a failing callee, or two cooperating sites that each look fine alone — NOT something that ordinary use or the first call would expose, and not simply deleting a whole check. Many angles have been used already (see the lists); find one that is genuinely different, for instance: a dependency between TWO contracts (how ITS uses the gateway or the gas service, how the operators contract is used as another contract's operator or collector, how the upgrader drives a target), the shared library code in packages/axelar-soroban-std (ttl.rs, token.rs, address.rs, interfaces) or its derive macros, argument values that alias each other, state written by one entry point and read by another, behaviour on the SECOND or N-th use of something, values at the edge of their type, or the order in which two checks or two writes happen. Do not edit existing tests, golden files or wasm artefacts.
+Choose ONE of these properties — the one for which you can find the most SUBTLE violation that has not been tried yet (all else equal prefer the property with the fewest earlier attempts) — and produce ONE realistic source change (a small diff to non-test source files under contracts/ or packages/, the kind of regression a refactoring, clean-up, "hardening" or "optimisation" could plausibly introduce) that BREAKS that property while (a) the workspace still compiles and (b) the ENTIRE existing test suite (`cargo test --workspace --offline`) still passes unchanged. The change must need something SPECIFIC to manifest — a particular multi-step history, an interleaving of different principals' transactions, ledger time or ledger sequence passing, a boundary or otherwise unusual input or deployment configuration, a failing callee, or two cooperating sites that each look fine alone — NOT something that ordinary use or the first call would expose, and not simply deleting a whole check. Many angles have been used already (see the lists); find one that is genuinely different, for instance: a dependency between TWO contracts (how ITS uses the gateway or the gas service, how the operators contract is used as another contract's operator or collector, how the upgrader drives a target), the shared library code in packages/axelar-soroban-std (ttl.rs, token.rs, address.rs, interfaces) or its derive macros, argument values that alias each other, state written by one entry point and read by another, behaviour on the SECOND or N-th use of something, values at the edge of their type, the order in which two checks or two writes happen, a difference between what is checked and what is then used, a difference between what an event or a return value says and what the state says, a difference between account and contract addresses, something that only shows when three contracts are involved, or something that only a getter nobody else reads would reveal. Do not edit existing tests, golden files or wasm artefacts.
 
 Also write a demonstration: a new Rust integration test file placed next to the existing tests of the relevant crate (so it can use that crate's test utilities) that FAILS with your change applied and PASSES on the original code. Verify both directions yourself (toggle the change with `git diff > /tmp/x.diff; git checkout -- <files>` / `git apply`), and verify that the full existing suite passes with the change (without the demo file present).
 
